@@ -173,6 +173,24 @@ STRENGTHENED.update({
 })
 CROSS.update({"C01-r7m1": ["C14"], "C03-r7m2": ["C16"], "C10-r7m1": ["C14"], "C12-r7m2": ["C01"], "C15-r7m2": ["C04"]})
 
+R8 = "round 8 (independent; themes: a delayed effect, one observer only, cross-instance interference); "
+STRENGTHENED.update({
+ "C01-r8m3": R8 + "LinkedHashMap.ToJSON returns bytes of a pooled buffer that the next ToJSON of ANY linked hash map overwrites: invisible to C01's histories, a C11 clause (the bytes returned by ToJSON are kept while other containers are serialised); caught by C11",
+ "C02-r8m3": R8 + "TreeSet Union/Difference with an empty operand return a shallow clone that shares the operand's nodes: a C13 clause (the result shares no state); caught by C13",
+ "C03-r8m3": R8 + "an aliasing defect (arraylist.New adopts the caller's slice, so two lists built from one slice share storage): a C16 clause; caught by C16",
+ "C04-r8m3": R8 + "HashSet Union/Difference with an empty operand borrow the operand's map: a C13 clause; caught by C13",
+ "C05-r8m3": R8 + "ArrayList.Values returns a view of the backing array (so ArrayQueue.Values does): a C16 clause; caught by C16",
+ "C06-r8m3": R8 + "ArrayList.Add on a list without backing array adopts the variadic slice (two heaps bulk-pushed from one slice share storage): a C16 clause; caught by C16",
+ "C07-r8m3": R8 + "missed at first by every check (B-tree thresholds read from a package-level memo of the LAST order constructed: creating a tree of another order changes the limits of every existing tree); the key-value engine now keeps bystanders — other containers of the same kind with other orders and comparators, created after the one under test, used between its steps and replaced now and then — in C01 and C07",
+ "C08-r8m3": R8 + "ArrayList.Add adopts the variadic slice: a C16 clause; caught by C16",
+ "C09-r8m2": R8 + "LinkedHashSet.Values hands out its cache: a C16 clause (returned slices are snapshots); caught by C16",
+ "C09-r8m3": R8 + "pooled ToJSON buffer (as C01-r8m3): a C11 clause; caught by C11",
+ "C10-r8m3": R8 + "TreeBidiMap.Select returns the receiver itself when nothing is rejected: a C14 clause; caught by C14",
+ "C15-r8m3": R8 + "arraylist.New keeps the variadic slice: a C16 clause; caught by C16",
+ "C17-r8m3": R8 + "missed by C17 itself (one container per case, comparators total on ints: the foreign comparator of a pooled temporary heap gives a wrong order, never a panic); caught by C06, C08 and C15, whose cases follow each other in one process with different comparators while the package-level pool outlives a case",
+})
+CROSS.update({"C01-r8m3": ["C11"], "C02-r8m3": ["C13"], "C03-r8m3": ["C16"], "C04-r8m3": ["C13"], "C05-r8m3": ["C16"], "C06-r8m3": ["C16"], "C08-r8m3": ["C16"], "C09-r8m2": ["C16"], "C09-r8m3": ["C11"], "C10-r8m3": ["C14"], "C15-r8m3": ["C16"], "C17-r8m3": ["C06", "C08"]})
+
 from concurrent.futures import ThreadPoolExecutor
 args = sys.argv[1:]
 jobs = 1
